@@ -310,7 +310,7 @@ fn worker(ctx: &Ctx, out: &mut Out) {
                 bad = true;
             }
         }
-        if out.samples.len() < 3 && case % 499 == 3 {
+        if out.samples.len() < 3 && (case % 499 == 3 || out.samples.is_empty()) {
             let kind_name = ["merge timer 1 h away", "1-5 ms merge timer, triggers exceeded", "1-5 ms interval sync", "interval sync 20 s..1 h away", "merge and sync timers 1 h away"][kind];
             out.sample(json!({"case": case, "kind": kind_name, "ops": nops, "pause_before_drop_us": pause_us, "handles_kept": 1, "background_calls_after_drop": bg_after_drop, "worker_thread_gone_after_us": took.as_micros() as u64}));
         }
